@@ -363,157 +363,81 @@ Section Search2.
   Qed.
 End Search2.
 
-(* ------------------------------------------------------------------ get_job: the last id-like run *)
-Definition segs (comps : list str) : str := flat_map (fun c => SL :: c) comps.
-
-Lemma abs_of_segs : forall comps, comps <> [] -> abs_of comps = segs comps.
+Lemma forallb_rev : forall A (f : A -> bool) l, forallb f (rev l) = forallb f l.
 Proof.
-  unfold abs_of. induction comps as [|c comps IH]; intro H; [congruence|].
-  destruct comps as [|c2 comps']; [simpl; rewrite app_nil_r; reflexivity|].
-  assert (E : c2 :: comps' <> []) by discriminate. specialize (IH E).
-  change (join_sl (c :: c2 :: comps')) with (c ++ SL :: join_sl (c2 :: comps')).
-  change (segs (c :: c2 :: comps')) with (SL :: c ++ segs (c2 :: comps')).
-  rewrite <- IH. reflexivity.
+  induction l as [|x l IH]; simpl; [reflexivity|].
+  rewrite forallb_app, IH. simpl. rewrite andb_true_r. apply andb_comm.
 Qed.
 
-Lemma is_hex_SL : is_hex SL = false.
+(* ------------------------------------------------------------------ get_job: the innermost id component *)
+Lemma id_fullmatch_is_id : forall c, id_fullmatch c = is_id c.
 Proof. reflexivity. Qed.
 
-Lemma id_ends_app_sl : forall a r pos b,
-  id_ends r pos (a ++ SL :: b) = id_ends r pos a ++ id_ends 0 (pos + length a + 1) b.
+(* scanning from the end: the first id component met is the innermost one, whatever precedes it
+   (other ids included) and whatever non-id names follow it (names that merely CONTAIN 32 hex
+   characters included) *)
+Lemma innermost_idcomp_spec : forall rpost i rb,
+  is_id i = true -> forallb (fun c => negb (is_id c)) rpost = true ->
+  innermost_idcomp (rpost ++ i :: rb) = Some (i, i :: rb).
 Proof.
-  induction a as [|c a IH]; intros r pos b; simpl.
-  - replace (pos + 0 + 1)%nat with (S pos) by lia. reflexivity.
-  - destruct (is_hex c).
-    + destruct (Nat.eqb r 31).
-      * simpl. rewrite IH. do 3 f_equal. lia.
-      * rewrite IH. do 2 f_equal. lia.
-    + rewrite IH. do 2 f_equal. lia.
+  induction rpost as [|c rpost IH]; intros i rb Hi H; simpl.
+  - rewrite id_fullmatch_is_id, Hi. reflexivity.
+  - simpl in H. apply andb_true_iff in H. destruct H as [Hc H]. apply negb_true_iff in Hc.
+    rewrite id_fullmatch_is_id, Hc. apply IH; assumption.
 Qed.
 
-Lemma id_ends_shift : forall s r pos k, id_ends r (pos + k) s = map (fun e => (e + k)%nat) (id_ends r pos s).
+Lemma innermost_idcomp_none : forall rc, forallb (fun c => negb (is_id c)) rc = true ->
+  innermost_idcomp rc = None.
 Proof.
-  induction s as [|c s IH]; intros r pos k; simpl; [reflexivity|].
-  destruct (is_hex c).
-  - destruct (Nat.eqb r 31); simpl.
-    + f_equal. apply (IH 0%nat (S pos) k).
-    + apply (IH (S r) (S pos) k).
-  - apply (IH 0%nat (S pos) k).
+  induction rc as [|c rc IH]; simpl; intro H; [reflexivity|].
+  apply andb_true_iff in H. destruct H as [Hc H]. apply negb_true_iff in Hc.
+  rewrite id_fullmatch_is_id, Hc. auto.
 Qed.
 
-Lemma id_ends_norun : forall c pos, has_run c = false -> id_ends 0 pos c = [].
+Lemma split_abs_of_any : forall comps, forallb cleanb comps = true ->
+  split_sl (abs_of comps) = match comps with [] => [[]; []] | _ => [] :: comps end.
 Proof.
-  intros c pos H. unfold has_run in H. destruct (id_ends 0 0 c) eqn:E; [|discriminate].
-  change pos with (0 + pos)%nat. rewrite id_ends_shift, E. reflexivity.
+  intros comps H. destruct comps as [|c cs]; [reflexivity|]. apply split_abs_of; [discriminate|exact H].
 Qed.
 
-(* a run of exactly n hex characters, starting with r already counted, r + n = 32 *)
-Lemma id_ends_hexes : forall c r pos, forallb is_hex c = true -> (r + length c = 32)%nat -> (0 < length c)%nat ->
-  id_ends r pos c = [(pos + length c)%nat].
-Proof.
-  induction c as [|x c IH]; intros r pos H L P; simpl in *; [lia|].
-  apply andb_true_iff in H. destruct H as [Hx Hc]. rewrite Hx.
-  destruct c as [|y c'].
-  - simpl in L. assert (E : Nat.eqb r 31 = true) by (apply Nat.eqb_eq; lia). rewrite E. simpl. f_equal. lia.
-  - assert (E : Nat.eqb r 31 = false) by (apply Nat.eqb_neq; simpl in L; lia). rewrite E.
-    rewrite IH; auto; simpl in *; try lia. f_equal. lia.
-Qed.
+Lemma is_id_nil : is_id [] = false.
+Proof. reflexivity. Qed.
 
-Lemma id_ends_id : forall i pos, is_id i = true -> id_ends 0 pos i = [(pos + 32)%nat].
-Proof.
-  intros i pos H. unfold is_id in H. apply andb_true_iff in H. destruct H as [L Hx].
-  apply Nat.eqb_eq in L. rewrite (id_ends_hexes i 0 pos Hx); [rewrite L; reflexivity | lia | lia].
-Qed.
-
-Lemma id_ends_segs_norun : forall post pos, (forall c, In c post -> has_run c = false) ->
-  id_ends 0 pos (segs post) = [].
-Proof.
-  induction post as [|c post IH]; intros pos H; [reflexivity|].
-  change (segs (c :: post)) with (SL :: (c ++ segs post)).
-  change (id_ends 0 pos (SL :: c ++ segs post)) with (id_ends 0 (S pos) (c ++ segs post)).
-  destruct post as [|c2 post'].
-  - simpl. rewrite app_nil_r. apply id_ends_norun. apply H. simpl; auto.
-  - change (segs (c2 :: post')) with (SL :: (c2 ++ segs post')).
-    rewrite id_ends_app_sl. rewrite (id_ends_norun c); [|apply H; simpl; auto].
-    assert (Hp : forall c0, In c0 (c2 :: post') -> has_run c0 = false) by (intros; apply H; simpl; auto).
-    pose proof (IH (S pos + length c)%nat Hp) as Z.
-    change (segs (c2 :: post')) with (SL :: (c2 ++ segs post')) in Z.
-    change (id_ends 0 (S pos + length c) (SL :: c2 ++ segs post'))
-      with (id_ends 0 (S (S pos + length c)) (c2 ++ segs post')) in Z.
-    replace (S pos + length c + 1)%nat with (S (S pos + length c)) by lia. exact Z.
-Qed.
-
-Lemma segs_app : forall a b, segs (a ++ b) = segs a ++ segs b.
-Proof. intros. unfold segs. apply flat_map_app. Qed.
-
-(* the regular expression finds, as its LAST match, exactly the innermost id-like component *)
-Lemma last_id_innermost : forall pre i post,
-  is_id i = true -> (forall c, In c post -> has_run c = false) ->
-  last_id_end (segs (pre ++ i :: post)) = Some (length (segs (pre ++ [i]))).
-Proof.
-  intros pre i post Hi Hp. unfold last_id_end.
-  rewrite segs_app. change (segs (i :: post)) with (SL :: (i ++ segs post)).
-  rewrite id_ends_app_sl.
-  assert (E : id_ends 0 (0 + length (segs pre) + 1) (i ++ segs post) = [(length (segs pre) + 1 + 32)%nat]).
-  { destruct post as [|c post'].
-    - simpl. rewrite app_nil_r. rewrite id_ends_id; auto.
-    - change (segs (c :: post')) with (SL :: (c ++ segs post')). rewrite id_ends_app_sl.
-      rewrite id_ends_id; auto.
-      pose proof (id_ends_segs_norun (c :: post') (length (segs pre) + 1 + length i)%nat Hp) as Z.
-      change (segs (c :: post')) with (SL :: (c ++ segs post')) in Z. simpl in Z.
-      replace (0 + length (segs pre) + 1 + length i + 1)%nat with (S (length (segs pre) + 1 + length i)) by lia.
-      rewrite Z. reflexivity. }
-  rewrite E. rewrite rev_app_distr. simpl.
-  f_equal. rewrite segs_app, app_length. simpl. rewrite app_nil_r.
-  unfold is_id in Hi. apply andb_true_iff in Hi. destruct Hi as [L _]. apply Nat.eqb_eq in L. simpl. lia.
-Qed.
-
-Lemma last_id_none : forall comps, (forall c, In c comps -> has_run c = false) ->
-  last_id_end (segs comps) = None.
-Proof. intros comps H. unfold last_id_end. rewrite id_ends_segs_norun; auto. Qed.
-
-Lemma firstn_segs : forall pre i post,
-  firstn (length (segs (pre ++ [i]))) (segs (pre ++ i :: post)) = segs (pre ++ [i]).
-Proof.
-  intros. replace (pre ++ i :: post) with ((pre ++ [i]) ++ post) by (rewrite <- app_assoc; reflexivity).
-  rewrite (segs_app (pre ++ [i]) post). rewrite firstn_app, Nat.sub_diag, firstn_all. simpl. apply app_nil_r.
-Qed.
-
-Lemma job_id_slice : forall pre i, length i = 32%nat ->
-  skipn (length (segs (pre ++ [i])) - 32) (segs (pre ++ [i])) = i.
-Proof.
-  intros pre i L. rewrite segs_app. simpl. rewrite app_nil_r.
-  rewrite app_length. simpl. rewrite L.
-  replace (length (segs pre) + 33 - 32)%nat with (length (segs pre) + 1)%nat by lia.
-  rewrite skipn_app. replace (length (segs pre) + 1 - length (segs pre))%nat with 1%nat by lia.
-  rewrite skipn_all2 by lia. reflexivity.
-Qed.
-
-(* get_job on a path whose absolute form has components pre ++ [i] ++ post, i the innermost id-like
-   component: the job id is i, the job path is /pre/i, and the project is searched from /pre/i/.. *)
+(* get_job on a path whose normalised form is /pre/i/post, i the innermost id component *)
 Lemma get_job_innermost : forall root cwd path pre i post,
-  abspath cwd path = segs (pre ++ i :: post) ->
-  is_id i = true -> (forall c, In c post -> has_run c = false) ->
+  abspath cwd path = abs_of (pre ++ i :: post) -> forallb cleanb (pre ++ i :: post) = true ->
+  is_id i = true -> forallb (fun c => negb (is_id c)) post = true ->
   os_exists root cwd (abspath cwd path) = true ->
   get_job root cwd path =
-    match get_project root cwd (path_join (segs (pre ++ [i])) s_pardir) true with
+    match get_project root cwd (path_join (abs_of (pre ++ [i])) s_pardir) true with
     | (Ok pr, root') => (Ok (pr, i), root')
     | (Err x, root') => (Err x, root')
     end.
 Proof.
-  intros root cwd path pre i post A Hi Hp X. unfold get_job. rewrite X. simpl. rewrite A.
-  rewrite (last_id_innermost pre i post Hi Hp). rewrite firstn_segs.
-  rewrite job_id_slice; [reflexivity|].
-  unfold is_id in Hi. apply andb_true_iff in Hi. destruct Hi as [L _]. apply Nat.eqb_eq in L. exact L.
+  intros root cwd path pre i post A Hc Hi Hp X. unfold get_job. rewrite X. simpl negb. cbv iota.
+  rewrite A, (split_abs_of (pre ++ i :: post)) by (auto; destruct pre; discriminate).
+  assert (E : @rev str (([] : str) :: pre ++ i :: post) = rev post ++ i :: (rev pre ++ [([] : str)])).
+  { simpl rev. rewrite rev_app_distr. simpl. rewrite <- !app_assoc. reflexivity. }
+  pose proof (innermost_idcomp_spec (rev post) i (rev pre ++ [([] : str)]) Hi) as SP.
+  rewrite forallb_rev in SP. specialize (SP Hp).
+  unfold str in *. rewrite E, SP.
+  assert (J : join_sl (rev (i :: rev pre ++ [([] : str)])) = abs_of (pre ++ [i])).
+  { simpl rev. rewrite rev_app_distr. simpl. rewrite rev_involutive.
+    unfold abs_of. destruct (pre ++ [i]) eqn:Z; [destruct pre; discriminate|reflexivity]. }
+  unfold str in *. rewrite J. reflexivity.
 Qed.
 
 Lemma get_job_no_id : forall root cwd path comps,
-  abspath cwd path = segs comps -> (forall c, In c comps -> has_run c = false) ->
+  abspath cwd path = abs_of comps -> forallb cleanb comps = true ->
+  forallb (fun c => negb (is_id c)) comps = true ->
   get_job root cwd path = (Err ELookupError, root).
 Proof.
-  intros root cwd path comps A H. unfold get_job.
+  intros root cwd path comps A Hc H. unfold get_job.
   destruct (negb (os_exists root cwd (abspath cwd path))); [reflexivity|].
-  rewrite A, (last_id_none comps H). reflexivity.
+  rewrite A, (split_abs_of_any _ Hc).
+  rewrite innermost_idcomp_none; [reflexivity|].
+  destruct comps as [|c cs]; [reflexivity|].
+  rewrite forallb_rev. simpl. simpl in H. exact H.
 Qed.
 
 Lemma get_job_missing : forall root cwd path,
@@ -523,12 +447,6 @@ Proof. intros root cwd path X. unfold get_job. rewrite X. reflexivity. Qed.
 (* ------------------------------------------------------------------ component level = string level
    The oracle of CorrC19 speaks about path components and physical lookups; the model about
    strings.  On a normalised absolute path they are the same thing. *)
-Lemma forallb_rev : forall A (f : A -> bool) l, forallb f (rev l) = forallb f l.
-Proof.
-  induction l as [|x l IH]; simpl; [reflexivity|].
-  rewrite forallb_app, IH. simpl. rewrite andb_true_r. apply andb_comm.
-Qed.
-
 Section Comps.
   Variable root : node.
   Variable cwd : str.
@@ -879,15 +797,6 @@ Proof.
     destruct (phys root (c :: cs)) as [ph|]; [|reflexivity]. destruct (get root ph); reflexivity.
 Qed.
 
-Lemma forallb_norun : forall l, forallb (fun c => negb (has_run c) || is_id c) l = true ->
-  forallb (fun c => negb (is_id c)) l = true -> forall c, In c l -> has_run c = false.
-Proof.
-  induction l as [|x l IH]; simpl; intros A B c I; [contradiction|].
-  apply andb_true_iff in A. destruct A as [A1 A2]. apply andb_true_iff in B. destruct B as [B1 B2].
-  destruct I as [E|I]; [subst x|auto].
-  apply negb_true_iff in B1. rewrite B1, orb_false_r in A1. apply negb_true_iff in A1. exact A1.
-Qed.
-
 Definition job_vocabulary (r : qres) : Prop :=
   match r with RJob _ _ => True | RErr ELookupError => True | _ => False end.
 
@@ -910,7 +819,7 @@ Proof.
   match goal with H : forallb cleanb _ = true |- _ => rename H into Hclean end.
   match goal with H : str_eqb (abspath _ _) _ = true |- _ => apply str_eqb_eq in H; rename H into Habs end.
   set (comps := q_comps q) in *. set (cwd := q_cwd q) in *. set (path := q_path q) in *.
-  unfold job_layout in JL. apply andb_true_iff in JL. destruct JL as [JL1 JL2].
+  unfold job_layout in JL. rename JL into JL2.
   pose proof (os_exists_abs_of root cwd comps Hclean) as EX.
   unfold agree_q in Hag. fold root in Hag. unfold run_q in Hag. rewrite K in Hag. fold cwd path in Hag.
   assert (Q : q_res q = match get_job root cwd path with (Ok (r, i), _) => RJob r i | (Err e, _) => RErr e end).
@@ -928,11 +837,7 @@ Proof.
   2:{ (* no id-like component *)
       pose proof (innermost_none _ IN) as NI. rewrite forallb_rev in NI.
       assert (G : get_job root cwd path = (Err ELookupError, root)).
-      { destruct comps as [|c0 cs0] eqn:EC.
-        - unfold get_job. rewrite Habs. destruct (negb (os_exists root cwd (abs_of []))); reflexivity.
-        - apply (get_job_no_id root cwd path (c0 :: cs0)).
-          + rewrite Habs. apply abs_of_segs. discriminate.
-          + apply forallb_norun; assumption. }
+      { apply (get_job_no_id root cwd path comps Habs Hclean NI). }
       rewrite G in Q. rewrite Q. reflexivity. }
   destruct rb as [|w rproj]; [discriminate JL2|].
   apply andb_true_iff in JL2. destruct JL2 as [JL2 PX].
@@ -952,17 +857,11 @@ Proof.
   { rewrite EC in Hclean. rewrite forallb_app in Hclean. apply andb_true_iff in Hclean. destruct Hclean as [A B].
     simpl in B. apply andb_true_iff in B. tauto. }
   destruct Cpre as [Cpre Ci].
-  assert (NR : forall c, In c (rev rpost) -> has_run c = false).
-  { apply forallb_norun.
-    - rewrite EC in JL1. rewrite forallb_app in JL1. apply andb_true_iff in JL1. destruct JL1 as [_ B].
-      simpl in B. apply andb_true_iff in B. tauto.
-    - rewrite forallb_rev. exact NP. }
-  assert (SG : abspath cwd path = segs (pre ++ i :: rev rpost)).
-  { rewrite Habs, EC. apply abs_of_segs. destruct pre; discriminate. }
+  assert (NR : forallb (fun c => negb (is_id c)) (rev rpost) = true) by (rewrite forallb_rev; exact NP).
   assert (XA : os_exists root cwd (abspath cwd path) = true) by (rewrite Habs; exact EX).
-  rewrite (get_job_innermost root cwd path pre i (rev rpost) SG Hi NR XA) in Q.
-  assert (SJ : segs (pre ++ [i]) = abs_of (pre ++ [i])) by (symmetry; apply abs_of_segs; destruct pre; discriminate).
-  rewrite SJ in Q.
+  assert (Habs2 : abspath cwd path = abs_of (pre ++ i :: rev rpost)) by (rewrite Habs, EC; reflexivity).
+  assert (Hc2 : forallb cleanb (pre ++ i :: rev rpost) = true) by (rewrite <- EC; exact Hclean).
+  rewrite (get_job_innermost root cwd path pre i (rev rpost) Habs2 Hc2 Hi NR XA) in Q.
   (* the project search from /pre/i/.. *)
   assert (NE : nearest root (s_workspace :: rproj) = Some (rev rproj)).
   { change (nearest root (s_workspace :: rproj)) with
